@@ -11,6 +11,7 @@ THEOREMS = ["GitAi.Split3.classify_spec", "GitAi.Split3.split_coordinates", "Git
             "GitAi.Split3.regression_unstaged_replacement_above", "GitAi.Split3.regression_modified_again_stays_pending",
             "GitAi.Split3.locate_strictMono", "GitAi.Split3.split_outputs_wf",
             "GitAi.Sys.every_commit_exact", "GitAi.Sys.pending_line_carried",
+            "GitAi.Sys.head_line_not_listed", "GitAi.Sys.recorded_once",
             "GitAi.Sys.regression_pending_edited_before_checkpoint"]
 
 
